@@ -424,4 +424,51 @@ theorem pending_init (n T : Nat) : pending n init.pc T = 0 := by
   | zero => rfl
   | succ T ih => simp only [pending, ih]; rfl
 
+/-! ## configuration helpers -/
+
+theorem addResult_self (w : When) (i : Nat) (m : Matcher) (v : Nat) (h : w.ms[i]? = some m) :
+    (addResult w i v).ms[i]? = some { m with results := m.results ++ [v] } ∧
+    (∀ j, j ≠ i → (addResult w i v).ms[j]? = w.ms[j]?) ∧ (addResult w i v).ms.length = w.ms.length ∧
+    (addResult w i v).mlist = w.mlist ∧ (addResult w i v).dflt = w.dflt ∧ (addResult w i v).curMatch = w.curMatch := by
+  have e : addResult w i v = { w with ms := w.ms.set i { m with results := m.results ++ [v] } } := by
+    simp only [addResult, h]
+  rw [e]
+  exact ⟨List.getElem?_set_self (lt_of_getElem? h), fun j hj => List.getElem?_set_ne (Ne.symm hj), List.length_set, rfl, rfl, rfl⟩
+
+/-- the stub `AndReturn` extends: the current condition, or the default when there is none (when.go:162-168) -/
+def target (w : When) : Option Nat :=
+  match w.curMatch with
+  | some i => some i
+  | none => w.dflt
+
+/-- `AndReturn` (and the 2nd… values of `Returns`) append, in order, to the target stub and touch nothing else -/
+theorem andRets_target (vs : List Nat) : ∀ (w : When) (i : Nat) (m : Matcher), target w = some i → w.ms[i]? = some m →
+    (vs.foldl andRet w).ms[i]? = some { m with results := m.results ++ vs } ∧
+    (∀ j, j ≠ i → (vs.foldl andRet w).ms[j]? = w.ms[j]?) ∧ (vs.foldl andRet w).ms.length = w.ms.length ∧
+    (vs.foldl andRet w).mlist = w.mlist ∧ (vs.foldl andRet w).dflt = w.dflt ∧ (vs.foldl andRet w).curMatch = w.curMatch := by
+  induction vs with
+  | nil => intro w i m _ hm; exact ⟨by simp only [List.foldl_nil, List.append_nil]; exact hm, fun _ _ => rfl, rfl, rfl, rfl, rfl⟩
+  | cons v vs ih =>
+    intro w i m hc hm
+    obtain ⟨a1, a2, a3, a4, a5, a6⟩ := addResult_self w i m v hm
+    have hstep : andRet w v = addResult w i v := by
+      unfold target at hc
+      cases hcm : w.curMatch with
+      | some i' => simp only [hcm] at hc; cases hc; simp only [andRet, hcm]
+      | none => simp only [hcm] at hc; simp only [andRet, hcm, ret, hc]
+    have ht : target (addResult w i v) = some i := by unfold target at hc ⊢; rw [a6, a5]; exact hc
+    obtain ⟨b1, b2, b3, b4, b5, b6⟩ := ih (addResult w i v) i _ ht a1
+    simp only [List.foldl_cons, hstep]
+    refine ⟨by rw [b1]; simp only [List.append_assoc, List.singleton_append], fun j hj => by rw [b2 j hj, a2 j hj],
+      by rw [b3, a3], by rw [b4, a4], by rw [b5, a5], by rw [b6, a6]⟩
+
+/-! ## visible part of a history -/
+
+theorem obs_split {w : List Ev} {l1 l2 : List Ev} {e : Ev} (h : obs w = l1 ++ e :: l2) :
+    ∃ w1 w2, w = w1 ++ e :: w2 ∧ obs w2 = l2 := by
+  unfold obs at h
+  obtain ⟨u1, u2, rfl, -, hu2⟩ := List.filter_eq_append_iff.1 h
+  obtain ⟨x1, x2, rfl, -, -, hx2⟩ := List.filter_eq_cons_iff.1 hu2
+  exact ⟨u1 ++ x1, x2, by simp only [List.append_assoc], hx2⟩
+
 end C05L
